@@ -78,8 +78,10 @@ def extreme(rng, bits):
         v = rng.choice(DICT) + rng.choice([0, 0, 0, 1, -1])
         RECENT.append(v & m)
         return v & m
-    if RECENT and rng.random() < 0.06:
-        v = (rng.choice(RECENT[-6:]) + rng.choice([0, 0, 1, -1])) & m
+    if RECENT and rng.random() < (0.15 if DICT else 0.06):
+        small = [d for d in DICT if d <= 64]
+        delta = rng.choice([0, 0, 1, -1] + small + [-d for d in small])
+        v = (rng.choice(RECENT[-6:]) + delta) & m
         return v
     v = _extreme(rng, bits)
     RECENT.append(v)
